@@ -1068,6 +1068,164 @@ proof fn lemma_is_perm_within(fw: Seq<isize>, u: Seq<isize>, b: int)
     lemma_reduce_from_within(Seq::empty(), neg_rev(r), b);
 }
 
+// ---------- models: actions of the generators on points (for unit `cosets`: a relator that acts trivially in a model does so in all its
+// rotations and inverses; spec functions copied verbatim there) ----------
+pub open spec fn m1(act: spec_fn(int, int) -> int, n: int) -> bool {
+    forall|x: int, g: int| g != 0 && -n <= g <= n ==> #[trigger] act(act(x, g), -g) == x
+}
+pub open spec fn act_word(act: spec_fn(int, int) -> int, x: int, w: Seq<isize>) -> int
+    decreases w.len()
+{
+    if w.len() == 0 { x } else { act(act_word(act, x, w.drop_last()), w.last() as int) }
+}
+pub open spec fn triv(act: spec_fn(int, int) -> int, w: Seq<isize>) -> bool { forall|x: int| #[trigger] act_word(act, x, w) == x }
+// letters are generators or inverse generators of a group with n generators
+pub open spec fn gens_in(s: Seq<isize>, n: int) -> bool { forall|k: int| 0 <= k < s.len() ==> #[trigger] s[k] != 0 && -n <= s[k] <= n && s[k] > isize::MIN }
+
+proof fn lemma_aw_concat(act: spec_fn(int, int) -> int, x: int, u: Seq<isize>, v: Seq<isize>)
+    ensures act_word(act, x, u + v) == act_word(act, act_word(act, x, u), v)
+    decreases v.len()
+{
+    if v.len() == 0 { assert(u + v =~= u); }
+    else {
+        assert((u + v).drop_last() =~= u + v.drop_last());
+        assert((u + v).last() == v.last());
+        lemma_aw_concat(act, x, u, v.drop_last());
+    }
+}
+
+proof fn lemma_aw_single(act: spec_fn(int, int) -> int, x: int, g: isize)
+    ensures act_word(act, x, seq![g]) == act(x, g as int)
+{
+    let s1 = seq![g];
+    assert(s1.len() == 1 && s1.last() == g);
+    assert(s1.drop_last() =~= Seq::<isize>::empty());
+    assert(act_word(act, x, s1.drop_last()) == x);
+}
+
+// acting by a word and then by its formal inverse leads back
+proof fn lemma_aw_inv(act: spec_fn(int, int) -> int, n: int, x: int, v: Seq<isize>)
+    requires m1(act, n), gens_in(v, n)
+    ensures act_word(act, act_word(act, x, v), neg_rev(v)) == x
+    decreases v.len()
+{
+    if v.len() > 0 {
+        let v0 = v.drop_last();
+        let g = v.last();
+        let iv = neg_rev(v);
+        assert(v[v.len() - 1] != 0 && -n <= v[v.len() - 1] <= n && v[v.len() - 1] > isize::MIN);
+        let ng = (-(g as int)) as isize;
+        assert(iv =~= seq![ng] + neg_rev(v0)) by {
+            assert(iv.len() == v.len());
+            assert forall|k: int| 0 <= k < iv.len() implies iv[k] == (seq![ng] + neg_rev(v0))[k] by {
+                if k > 0 { assert(neg_rev(v0)[k - 1] == (-(v0[v0.len() - 1 - (k - 1)] as int)) as isize); assert(v0[v0.len() - k] == v[v.len() - 1 - k]); }
+            }
+        }
+        let y = act_word(act, x, v);
+        lemma_aw_concat(act, y, seq![ng], neg_rev(v0));
+        lemma_aw_single(act, y, ng);
+        assert(act(act(act_word(act, x, v0), g as int), -(g as int)) == act_word(act, x, v0));
+        assert(gens_in(v0, n)) by { assert forall|j: int| 0 <= j < v0.len() implies #[trigger] v0[j] != 0 && -n <= v0[j] <= n && v0[j] > isize::MIN by { assert(v0[j] == v[j]); } }
+        lemma_aw_inv(act, n, x, v0);
+    }
+}
+
+proof fn lemma_neg_rev_gens(v: Seq<isize>, n: int)
+    requires gens_in(v, n)
+    ensures gens_in(neg_rev(v), n), neg_rev(neg_rev(v)) == v
+{
+    assert forall|k: int| 0 <= k < neg_rev(v).len() implies #[trigger] neg_rev(v)[k] != 0 && -n <= neg_rev(v)[k] <= n && neg_rev(v)[k] > isize::MIN by {
+        assert(v[v.len() - 1 - k] != 0 && -n <= v[v.len() - 1 - k] <= n && v[v.len() - 1 - k] > isize::MIN);
+    }
+    assert forall|k: int| 0 <= k < v.len() implies neg_rev(neg_rev(v))[k] == v[k] by { assert(v[k] > isize::MIN); }
+    assert(neg_rev(neg_rev(v)) =~= v);
+}
+
+// a word that acts trivially everywhere does so after rotation ...
+proof fn lemma_triv_rotation(act: spec_fn(int, int) -> int, n: int, fw: Seq<isize>, k: int)
+    requires m1(act, n), gens_in(fw, n), triv(act, fw), 0 <= k <= fw.len()
+    ensures triv(act, fw.skip(k) + fw.take(k)), gens_in(fw.skip(k) + fw.take(k), n)
+{
+    let v = fw.take(k); let t = fw.skip(k);
+    assert(fw =~= v + t);
+    assert(gens_in(v, n)) by { assert forall|j: int| 0 <= j < v.len() implies #[trigger] v[j] != 0 && -n <= v[j] <= n && v[j] > isize::MIN by { assert(v[j] == fw[j]); } }
+    assert(gens_in(t + v, n)) by { assert forall|j: int| 0 <= j < (t + v).len() implies #[trigger] (t + v)[j] != 0 && -n <= (t + v)[j] <= n && (t + v)[j] > isize::MIN by {
+        if j < t.len() { assert((t + v)[j] == fw[k + j]); } else { assert((t + v)[j] == fw[j - t.len()]); } } }
+    assert forall|x: int| #[trigger] act_word(act, x, t + v) == x by {
+        lemma_neg_rev_gens(v, n);
+        let z = act_word(act, x, neg_rev(v));
+        lemma_aw_inv(act, n, x, neg_rev(v));          // z . v == x
+        assert(act_word(act, z, v) == x);
+        assert(act_word(act, z, v + t) == z);
+        lemma_aw_concat(act, z, v, t);                 // (z . v) . t == z
+        lemma_aw_concat(act, x, t, v);                 // x . (t v) == (x . t) . v == z . v == x
+    }
+}
+
+// ... after inversion ...
+proof fn lemma_triv_inverse(act: spec_fn(int, int) -> int, n: int, w: Seq<isize>)
+    requires m1(act, n), gens_in(w, n), triv(act, w)
+    ensures triv(act, neg_rev(w)), gens_in(neg_rev(w), n)
+{
+    lemma_neg_rev_gens(w, n);
+    assert forall|x: int| #[trigger] act_word(act, x, neg_rev(w)) == x by {
+        lemma_aw_inv(act, n, x, w);
+        assert(act_word(act, x, w) == x);
+    }
+}
+
+// ... and after free reduction (cancelling g g^-1 does not change the action)
+proof fn lemma_aw_reduce_from(act: spec_fn(int, int) -> int, n: int, x: int, buf: Seq<isize>, s: Seq<isize>)
+    requires m1(act, n), gens_in(buf, n), gens_in(s, n)
+    ensures act_word(act, x, reduce_from(buf, s)) == act_word(act, act_word(act, x, buf), s), gens_in(reduce_from(buf, s), n)
+    decreases s.len()
+{
+    if s.len() > 0 {
+        let g = s[0];
+        let rest = s.drop_first();
+        let nb = step(buf, g);
+        assert(s[0] != 0 && -n <= s[0] <= n && s[0] > isize::MIN);
+        assert(gens_in(rest, n)) by { assert forall|j: int| 0 <= j < rest.len() implies #[trigger] rest[j] != 0 && -n <= rest[j] <= n && rest[j] > isize::MIN by { assert(rest[j] == s[j + 1]); } }
+        // one step: x . step(buf, g) == (x . buf) . g
+        if buf.len() > 0 && neg_eq(g, buf.last()) {
+            let b0 = buf.drop_last();
+            assert(nb == b0);
+            assert(buf[buf.len() - 1] != 0 && -n <= buf[buf.len() - 1] <= n && buf[buf.len() - 1] > isize::MIN);
+            assert(act(act(act_word(act, x, b0), buf.last() as int), -(buf.last() as int)) == act_word(act, x, b0));
+            assert(g as int == -(buf.last() as int));
+            assert(gens_in(nb, n)) by { assert forall|j: int| 0 <= j < nb.len() implies #[trigger] nb[j] != 0 && -n <= nb[j] <= n && nb[j] > isize::MIN by { assert(nb[j] == buf[j]); } }
+        } else {
+            assert(nb == buf.push(g));
+            assert(nb.drop_last() =~= buf);
+            assert(gens_in(nb, n)) by { assert forall|j: int| 0 <= j < nb.len() implies #[trigger] nb[j] != 0 && -n <= nb[j] <= n && nb[j] > isize::MIN by { if j < buf.len() { assert(nb[j] == buf[j]); } } }
+        }
+        assert(act_word(act, x, nb) == act(act_word(act, x, buf), g as int));
+        lemma_aw_reduce_from(act, n, x, nb, rest);
+        assert(s =~= seq![g] + rest);
+        lemma_aw_concat(act, act_word(act, x, buf), seq![g], rest);
+        lemma_aw_single(act, act_word(act, x, buf), g);
+    }
+}
+
+// every candidate of the relator representative acts trivially where the word does
+proof fn lemma_perm_triv(act: spec_fn(int, int) -> int, n: int, fw: Seq<isize>, u: Seq<isize>)
+    requires m1(act, n), reduced(fw), within(fw, n), triv(act, fw), is_perm(fw, u)
+    ensures triv(act, u)
+{
+    assert(gens_in(fw, n)) by { assert forall|j: int| 0 <= j < fw.len() implies #[trigger] fw[j] != 0 && -n <= fw[j] <= n && fw[j] > isize::MIN by { } }
+    let k = choose|k: int| 0 <= k < fw.len() && (#[trigger] rot(fw, k) == u || inv_w(rot(fw, k)) == u);
+    let raw = fw.skip(k) + fw.take(k);
+    lemma_triv_rotation(act, n, fw, k);
+    let e = Seq::<isize>::empty();
+    assert(gens_in(e, n));
+    let r = rot(fw, k);
+    assert forall|x: int| #[trigger] act_word(act, x, r) == x by { lemma_aw_reduce_from(act, n, x, e, raw); }
+    lemma_aw_reduce_from(act, n, 0, e, raw);
+    lemma_triv_inverse(act, n, r);
+    let ri = inv_w(r);
+    assert forall|x: int| #[trigger] act_word(act, x, ri) == x by { lemma_aw_reduce_from(act, n, x, e, neg_rev(r)); }
+}
+
 pub open spec fn has_view(s: Set<FreeWord>, v: Seq<isize>) -> bool { exists|u: FreeWord| #[trigger] s.contains(u) && u@ == v }
 
 //@ begin src/fpgroups/free_words.rs :: - :: fn relator_permutations
@@ -1084,6 +1242,7 @@ pub fn relator_permutations(fw: &FreeWord) -> (result: BTreeSet<FreeWord>)
         // in the form unit `cosets` imports: the word itself is a member, and members use no letter beyond those of the word
         has_view(result@, fw@),
         forall|u: FreeWord, b: int| #![trigger result@.contains(u), within(fw@, b)] result@.contains(u) && within(fw@, b) ==> within(u@, b),
+        forall|act: spec_fn(int, int) -> int, n: int, u: FreeWord| #![trigger m1(act, n), result@.contains(u)] m1(act, n) && within(fw@, n) && triv(act, fw@) && result@.contains(u) ==> triv(act, u@),
 {
     proof { axiom_vec_len_isize(&fw.w); axiom_obeys_cmp::<FreeWord>(); use_type_invariant(fw); }
     if fw.w.len() == 0 {
@@ -1128,6 +1287,9 @@ pub fn relator_permutations(fw: &FreeWord) -> (result: BTreeSet<FreeWord>)
             assert(has_view(result@, rot(fw@, 0)));
             assert forall|u: FreeWord, b: int| #![trigger result@.contains(u), within(fw@, b)] result@.contains(u) && within(fw@, b) implies within(u@, b) by {
                 lemma_is_perm_within(fw@, u@, b);
+            }
+            assert forall|act: spec_fn(int, int) -> int, n: int, u: FreeWord| #![trigger m1(act, n), result@.contains(u)] m1(act, n) && within(fw@, n) && triv(act, fw@) && result@.contains(u) implies triv(act, u@) by {
+                lemma_perm_triv(act, n, fw@, u@);
             }
         }
         result
